@@ -7,7 +7,13 @@ S(flow) below is the state record written from the field list of the statement, 
 """
 from pyvc.api import *
 
-CLAIM = "proof"
+CLAIM = "other"
+EXPLANATION = ("T1 proves, on the real Flow/TCPFlow/HTTPFlow/Serializable code and for all values of every base-class field, that backup stores exactly the "
+               "state record (once), revert restores every field from it and clears it, modified() is False without a backup and True when the state differs "
+               "(the remaining clause - False when the state equals the backup - is violated by the unchanged tree: KF-C40-1), and copy builds a not-live flow "
+               "from exactly the state with a fresh id while leaving the original untouched. Sub-objects (connections, error, request, response) are opaque "
+               "components in T1; their reflection-based (de)serialisation and the deep non-aliasing clause ('editing either one never changes the other') are "
+               "bounded: T2 runs edit sequences on real flows of every type.")
 FL = "mitmproxy.flow:Flow"
 COMP = "pyvc.libx_io:Component"
 ASSUMPTIONS = [
@@ -205,7 +211,7 @@ def s_modified(vc):
     # "modified exactly when its current state differs from its backup": compare the state records (backup slot aside)
     same = vc.eq(S(vc, kind, cur), S(vc, kind, bak))
     if vc.branch(same):
-        vc.ensure_kf("modified.false_when_state_equals_backup", vc.eq(r, False), "KF-C40-1", True)
+        vc.ensure("modified.false_when_state_equals_backup", vc.eq(r, False))  # was recorded finding KF-C40-1, repaired in /repo (see known_findings.d)
     else:
         vc.ensure("modified.true_when_state_differs", vc.eq(r, True))
 
@@ -220,7 +226,7 @@ def s_backup_modified(vc):
     o2 = vc.call(FL + ".modified", f)
     vc.ensure("no_exception", o1.ok and o2.ok)
     if o1.ok and o2.ok:
-        vc.ensure_kf("unedited_flow_is_not_modified", vc.eq(o2.result, False), "KF-C40-1", True)
+        vc.ensure("unedited_flow_is_not_modified", vc.eq(o2.result, False))  # was recorded finding KF-C40-1, repaired in /repo (see known_findings.d)
 
 
 @scenario("copy", functions=[FL + ".copy", "mitmproxy.coretypes.serializable:Serializable.copy", FL + ".get_state"])
